@@ -33,7 +33,7 @@ ENGINE = {"C08": "cowsim", "C07": "cowsim", "C05": "liftsim", "C06": "liftsim"}
 BUDGET = {
     ("C08", "quick"): 1_200_000,
     ("C08", "thorough"): 24_000_000,
-    ("C07", "quick"): 300_000,
+    ("C07", "quick"): 600_000,
     ("C07", "thorough"): 6_000_000,
     ("C05", "quick"): 400_000,
     ("C05", "thorough"): 8_000_000,
